@@ -265,6 +265,17 @@ func verifParseTree(text string) (antlr.ParserRuleContext, error) {
 	return tree, nil
 }
 
+// verifModelParseTree is what replaces the generated parser under gosym.
+func verifModelParseTree(text string) (*gen.ParseContext, error) {
+	tree, err := verifParseTree(text)
+	if err != nil {
+		return nil, err
+	}
+	root := gen.NewParseContext(nil, nil, 0)
+	root.AddChild(tree)
+	return root, nil
+}
+
 // verifParseQuery is ParseQuery with the parser model in place of the
 // generated parser; everything before and after parsing is the real code.
 func verifParseQuery(env envs.Environment, text string, resolver Resolver) (*ContactQuery, error) {
